@@ -328,6 +328,78 @@ def check_unions(ctx, cfgmod):
             ctx.violation("NssConfig", "invalid-accepted", "an incompatible unit / bad tag / bad month is accepted", {"tree": t})
 
 
+def check_band_other_fields(ctx, cfgmod):
+    """the band rule does not depend on the other fields of the section (enable flag, antennas, gain, threshold) nor on the
+    way the section is given (constructor, dict inside NssConfig, TOML file)"""
+    import os
+    import tempfile
+    Radio = cfgmod.Detector.Radio
+    bands = [(300.0, 30.0), (100.0, 100.0), ("1 GHz", "999 MHz"), (0.0, 0.0)]
+    for lo, hi in bands:
+        for other in ({"enable": False}, {"enable": True}, {"enable": False, "nantennas": 1}, {"enable": False, "gain": "0 dB", "snr_threshold": 0.0}):
+            for way in ("constructor", "nssconfig-dict", "toml"):
+                ctx.case(("band-other", repr(lo), repr(hi), tuple(sorted(other.items(), key=str)), way))
+                ctx.count("band_with_other_fields")
+                sec = {"low_frequency": lo, "high_frequency": hi, **other}
+                try:
+                    if way == "constructor":
+                        Radio(**sec)
+                    elif way == "nssconfig-dict":
+                        cfgmod.NssConfig(**{"detector": {"radio": sec}})
+                    else:
+                        def tv(v):
+                            return ("true" if v else "false") if isinstance(v, bool) else (f'"{v}"' if isinstance(v, str) else repr(v))
+                        with tempfile.NamedTemporaryFile("w", suffix=".toml", delete=False) as f:
+                            f.write("[detector.radio]\n" + "".join(f"{k} = {tv(v)}\n" for k, v in sec.items()))
+                        try:
+                            cfgmod.config_from_toml(f.name)
+                        finally:
+                            os.unlink(f.name)
+                    ctx.violation("Detector.Radio", "band-not-increasing-accepted", f"an inverted or empty frequency band is accepted ({way}, other fields {other})",
+                                  {"low": lo, "high": hi, "other_fields": {k: repr(v) for k, v in other.items()}, "given_as": way})
+                except Exception:  # noqa
+                    pass
+
+
+def check_locale_independence(ctx, cfgmod):
+    """TOML files are UTF-8 whatever the locale of the process: write and read a configuration with non-ASCII strings in child
+    processes started under a plain C locale (no UTF-8 coercion) and under the current environment"""
+    import os
+    import subprocess
+    import tempfile
+    code = r'''
+import sys, warnings
+warnings.filterwarnings("ignore")
+sys.path.insert(0, sys.argv[1])
+import nuspacesim as nss
+from nuspacesim import config as c
+cfg = nss.NssConfig()
+cfg.title = "Neutrinos \u03bd\u03c4 \u2014 \u00e9t\u00e9 \"q\" \\ b"
+cfg.detector.name = "D\u00e9tecteur \u00d8 \u6771\u4eac"
+p = sys.argv[2]
+c.create_toml(p, cfg)
+back = c.config_from_toml(p)
+assert back.title == cfg.title and back.detector.name == cfg.detector.name, (back.title, back.detector.name)
+raw = open(p, "rb").read().decode("utf-8")     # the file itself is UTF-8
+assert "D\u00e9tecteur" in raw
+open(p, "wb").write(raw.replace("D\u00e9tecteur", "D\u00e9t\u00eacteur").encode("utf-8"))
+assert c.config_from_toml(p).detector.name.startswith("D\u00e9t\u00eacteur")
+print("ok")
+'''
+    envs = {"current": dict(os.environ),
+            "plain-C-locale": {**{k: v for k, v in os.environ.items() if not k.startswith("LC_") and k not in ("LANG", "LANGUAGE", "PYTHONUTF8", "PYTHONIOENCODING")},
+                               "LC_ALL": "C", "LANG": "C", "PYTHONCOERCECLOCALE": "0", "PYTHONUTF8": "0"},
+            "utf8-mode": {**os.environ, "PYTHONUTF8": "1"}}
+    for name, env in envs.items():
+        with tempfile.TemporaryDirectory() as d:
+            r = subprocess.run([sys.executable, "-c", code, str(REPO / "src"), os.path.join(d, "c.toml")], env=env, capture_output=True, text=True, errors="replace")
+        ctx.case(("locale", name), {"op": "toml round trip with non-ASCII strings", "environment": name, "result": (r.stdout.strip() or r.stderr.strip()[-160:])})
+        ctx.count("locale_runs")
+        if r.returncode != 0 or "ok" not in r.stdout:
+            ctx.violation("create_toml/config_from_toml", "locale-dependent", f"a configuration with non-ASCII strings does not survive the TOML round trip in a process with environment '{name}': {r.stderr.strip()[-200:]}",
+                          {"environment": name, "env_overrides": {k: env.get(k) for k in ("LC_ALL", "LANG", "PYTHONUTF8", "PYTHONCOERCECLOCALE")}})
+
+
 def toml_roundtrip(cfgmod, cfg, path):
     try:
         cfgmod.create_toml(path, cfg)
@@ -489,6 +561,8 @@ def run(ctx: Ctx):
     check_defaults(ctx, cfgmod)
     check_units(ctx, cfgmod)
     check_band(ctx, cfgmod)
+    check_band_other_fields(ctx, cfgmod)
+    check_locale_independence(ctx, cfgmod)
     check_months(ctx, cfgmod)
     check_unions(ctx, cfgmod)
     check_roundtrip(ctx, nss, cfgmod, 12000 if ctx.thorough else 250)
